@@ -69,8 +69,14 @@ namespace sim
             c = lim;
         }
       }
-      else if (v.size () + c > 64)
-        c = p % 3u;
+      else
+      {
+        // one run in eight works with large containers (several hundred elements)
+        if (cfg.size_cap > 64 && (p & 0x700u) == 0)
+          c = p % 180u;
+        if (v.size () + c > cfg.size_cap)
+          c = p % 3u;
+      }
       return c;
     }
 
